@@ -37,7 +37,7 @@ EXPLANATION = (
     "multi-line titles; whether every optional attribute present in an object is written."
 )
 TECHNIQUE += '; option-forwarding check on the format entry points; symbolic index-map evaluation of writer flattening against reader reshape; layout-independence lint of writer traversals'
-EXPLANATION += " Added: (R9) every option parameter of a format's load_one/load_many/dump_one/dump_many is read, and the many-frame routine forwards each option it shares with the one-frame routine; (R10) FCHK MO coefficients and coordinates and the QCSchema geometry, flattened by the writer expression and reshaped by the reader expression on symbolic arrays, come back entry by entry; (R11) no writer traverses an array in memory order (np.nditer without order, order='A'/'K', tobytes/tofile/view)."
+EXPLANATION += " Added: (R9) every option parameter of a format's load_one/load_many/dump_one/dump_many is read, and the many-frame routine forwards each option it shares with the one-frame routine; (R10) FCHK MO coefficients and coordinates and the QCSchema geometry, flattened by the writer expression and reshaped by the reader expression on symbolic arrays, come back entry by entry; (R10 also) every wavefunction writer's coefficient block, alpha and beta alike, is exactly signs[r] * C[permutation[r]] on symbols (the reader records the file's convention and applies nothing, so anything else comes back permuted or sign-flipped); (R11) no writer traverses an array in memory order (np.nditer without order, order='A'/'K', tobytes/tofile/view)."
 TECHNIQUE += '; unit-tag abstract interpretation of reader and writer compared per attribute'
 EXPLANATION += " Added: (R12) for every format with reader and writer, the unit factor the writer applies to an attribute is the inverse of one of the reader's variants (both computed by the unit-tag abstract interpreter; the QCSchema writer is analysed through the object handed to json.dump)."
 TRUSTED = ["CPython ast parser", "a dict comprehension {v: k for k, v in d.items()} inverts d iff the values are distinct"]
@@ -421,7 +421,7 @@ def run(ctx):
     ctx.rule("R10", "flattening by the writer is undone by the reader's reshape (entry by entry)", "matrices come back transposed or with rows and columns interleaved")
     from .indexmaps import check_index_maps
 
-    check_index_maps(ctx, "R10", ["fchk_mo", "fchk_coords", "json_geometry"])
+    check_index_maps(ctx, "R10", ["fchk_mo", "fchk_coords", "json_geometry", "writer_conventions"])
     ctx.floor("R10", ctx.rules["R10"]["obligations"], 4, "writer/reader index-map pairs")
 
     # ------------------------------------------------------------------ R11
